@@ -16,7 +16,14 @@ import (
 // Rng is splitmix64; one state per run, derived from VERIF_SEED.
 type Rng struct{ s uint64 }
 
-func NewRng(seed uint64) *Rng { return &Rng{s: seed*0x9E3779B97F4A7C15 + 0x1234567} }
+func NewRng(seed uint64) *Rng {
+	// Pass the seed through the finalizer twice so that neighbouring seeds give unrelated
+	// streams (a plain affine map of the seed would make seed+1 a one-step shift of seed).
+	r := &Rng{s: seed ^ 0x5DEECE66D1234567}
+	a := r.Next()
+	b := r.Next()
+	return &Rng{s: a ^ (b << 1) ^ 0x1234567}
+}
 
 func (r *Rng) Next() uint64 {
 	r.s += 0x9E3779B97F4A7C15
